@@ -254,8 +254,9 @@ bool QXmppPubSubSubscription::isSubscription(const QDomElement &element)
         return element.hasAttribute(u"jid"_s);
     }
     if (element.namespaceURI() == ns_pubsub_owner) {
+        // (an empty state is not written back by toXml(), so it does not count as present)
         return element.hasAttribute(u"jid"_s) &&
-            element.hasAttribute(u"subscription"_s);
+            !element.attribute(u"subscription"_s).isEmpty();
     }
     return false;
 }
